@@ -125,7 +125,7 @@ impl Next<f64> for RelativeStrengthIndex {
             // No gains and no losses left in the averages (flat prices): neutral value
             return 50.0;
         }
-        100.0 * up_ema / total
+        100.0 * (up_ema / total)
     }
 }
 
